@@ -91,6 +91,7 @@ def main():
     ap.add_argument("--verbose", action="store_true")
     ap.add_argument("--benign", action="store_true")
     ap.add_argument("--allprops", action="store_true", help="run every property's check on each mutant")
+    ap.add_argument("--everyprop", action="store_true", help="benign corpus: run all 20 checks on each variant (not only the ones listed under check)")
     a = ap.parse_args()
 
     corpus = load("benign" if a.benign else "mutants")
@@ -103,7 +104,15 @@ def main():
     with concurrent.futures.ThreadPoolExecutor(max_workers=a.j) as ex:
         for m in corpus:
             if a.benign:
-                props = [a.prop] if a.prop else m.get("check", all_props)
+                if a.prop:
+                    # a variant that is benign only for the listed properties is not replayed for others
+                    if "not_benign_for" in m and a.prop in m["not_benign_for"]:
+                        continue
+                    props = [a.prop]
+                elif a.everyprop:
+                    props = [p for p in all_props if p not in m.get("not_benign_for", [])]
+                else:
+                    props = m.get("check", all_props)
             elif a.allprops:
                 props = all_props
             else:
